@@ -15,6 +15,7 @@
 import Flamego.Model.Router
 import Flamego.Model.TreeIdx
 import Flamego.Model.Parser
+import Flamego.Spec.Dispatch
 import Flamego.Driver.Common
 namespace Flamego.Driver.Router
 
@@ -130,7 +131,14 @@ def step (E : Engine) (st : St) (l : List String) : St × String :=
     | none => (st, "err")
   | "REQ" :: m :: p :: hs =>
     let req : Request := ⟨(hexOf m).toStringLossy, hexOf p, parseReqHdrs hs⟩
-    (st, showOutcome st.R (st.R.serve E req))
+    -- `alts` = how many accepting walks the request has in its method tree (the length of the priority
+    -- enumeration `derivs`): reported for the coverage statistics only, never compared
+    let alts := match assocGet st.R.trees req.method with
+      | none => 0
+      | some t => match splitSlash (trimLeftSlash req.path) with
+        | [] => 0
+        | s :: rest => (derivs E (st.R.hok E req.hdrs) t.subs t.leaves s rest).length
+    (st, showOutcome st.R (st.R.serve E req) ++ s!" alts={alts}")
   | "NREQ" :: m :: p :: _ :: _ :: hs =>
     -- another request is served on the same instance while this one is in flight: serving does not
     -- change the router, so the outcome is that of the request alone
